@@ -10,20 +10,28 @@ from ..report import Ctx
 from .depthrules import filter_rule, polarity_rule, table_rule, validate_rule
 
 LEVEL_TEXT = (
-    "Static rules: (R1) for every type form (tuple, list, annotated, union, abstract, concrete) the increment that the tree "
-    "creator applies to the depth of the children - obtained by interpreting create_node (sa/treemodel.py) with a context at "
-    "depth 2 and reading the depth of the context handed to every recursive creation, including the one made by the callback "
-    "given to a refinement - is compared with the increment the grammar's distance table charges for that form - "
-    "get_distance_to_terminal interpreted on a symbolic type of each form with symbolic table entries in both depth modes, "
-    "plus the aggregation equations of preprocess and its helpers: true contribution <= creation increment <= distance "
-    "increment; (R2) every depth-limited chooser is abstractly interpreted path by path (affine domain, helpers inlined): the "
-    "list handed to random.choice is a chain of comprehension filters over the offered alternatives whose every disjunct "
-    "entails distance <= max_depth - ctx.depth, and unless the path conditions say the list is non-empty every alternative "
-    "that fits passes the filters; (R3) each depth-limited decider validates at construction, every raising path of validate "
-    "(found through the hierarchy, mixins included) entails max_depth < grammar minimum and every returning path the "
-    "converse, the error is the library's; (R4) mutate is interpreted on a node with a stored context: it is re-created "
-    "under that very context; (R5) AND forms aggregate minimum depths with max. A crossover donor's depth is not compared "
-    "with the remaining budget anywhere in the code; that path is dormant (see C06) and no rule is armed on it."
+    "Static rules: (R1) for every type form (tuple, list, annotated, refined list, union, abstract, concrete) the"
+    " increment that the tree creator applies to the depth of the children - obtained by interpreting create_node"
+    " (sa/treemodel.py) with a context at depth 2 and reading the depth of the context handed to every recursive "
+    "creation, including the one made by the callback given to a refinement - is compared with the increment the "
+    "grammar's distance table charges for that form - get_distance_to_terminal interpreted on a symbolic type of "
+    "each form with symbolic table entries in both depth modes, and, for abstract symbols and productions, the "
+    "tables the interpreted grammar analysis ends with on a probe grammar: true contribution <= creation "
+    "increment <= distance increment; (R2) every depth-limited chooser is abstractly interpreted path by path "
+    "(affine domain, helpers inlined): the list handed to random.choice is a chain of comprehension filters over "
+    "the offered alternatives whose every disjunct entails distance <= max_depth - ctx.depth, and unless the path"
+    " conditions say the list is non-empty every alternative that fits passes the filters; (R3) each depth-"
+    "limited decider validates at construction (constructors interpreted: the limit is stored, forwarded "
+    "unchanged through super().__init__ chains, validate is called after it is stored), every raising path of "
+    "validate (found through the hierarchy, mixins included) entails max_depth < grammar minimum and every "
+    "returning path the converse, the error is the library's; (R4) mutate is interpreted on a node with a stored "
+    "context: it is re-created under that very context; (R5) AND forms aggregate minimum depths with max; (R6) "
+    "creation model (sa/rules/creationmodel.py): random_node interpreted with each real decider object - "
+    "MaxDepth, position-independent grow, Full, dynamic-SGE - over ALL decision scripts on four model grammars "
+    "and every limit from the grammar minimum to 3 (thorough: 4): no produced program is deeper than the limit "
+    "and no decision sequence fails. Small scope: the listed grammars and limits. A crossover donor's depth is "
+    "not compared with the remaining budget anywhere in the code; that path is dormant (see C06) and no rule is "
+    "armed on it."
 )
 MUTATE = "geneticengine.representations.tree.treebased:mutate"
 
